@@ -12,6 +12,17 @@ Example relay_cap_shape_is :
   Gen.C14.relay_cap_shape = "if len(msgs) > defaultResponseMessageCount {msgs = msgs[:defaultResponseMessageCount];}"%string.
 Proof. reflexivity. Qed.
 
+(** every poller, and GetPendingValsetUpdates they share, reads the WHOLE queue (count argument 0 = all:
+    GetMessagesFromQueue truncates only when n > 0) and nothing is sliced before the filter: the model's
+    [pending_valset_updates q = filter is_valset_update q] looks at every message, however long the backlog *)
+Example queue_getters_are :
+  Gen.C14.queue_getters =
+  ["GetPendingValsetUpdates: GetMessagesFromQueue(_, _, 0) sliced-before-filter=false";
+   "GetMessagesForRelaying: GetMessagesFromQueue(_, _, 0) sliced-before-filter=false";
+   "GetMessagesForGasEstimation: GetMessagesFromQueue(_, _, 0) sliced-before-filter=false"]%string /\
+  Gen.C14.get_messages_from_queue_bound = ["n > 0 && len(msgs) > n"]%string.
+Proof. split; reflexivity. Qed.
+
 Definition older_than (m : qmsg) (l : list qmsg) : list qmsg := filter (fun x => mid x <? mid m) l.
 
 Lemma older_than_nil_of_lb m l : (forall y, In y l -> mid m <= mid y) -> older_than m l = [].
@@ -123,3 +134,10 @@ Example cap_releases_after_report :
   let q := queue (run cap_cfg (cap_ops 1001 ++ [OpPublicAccess 1])) in
   map mid (skipn 999 (for_relaying q 0)) = [1001].
 Proof. vm_compute. reflexivity. Qed.
+
+(** a pending valset update behind a backlog of more than one page still holds back what follows it *)
+Example valset_behind_backlog_blocks :
+  let q := queue (run cap_cfg (repeat (OpPut (KEvm AOther) 1 false false) 1005 ++
+                               [OpPut (KEvm AUpdateValset) 1 true false; OpPut (KEvm AOther) 0 false false])) in
+  for_relaying q 0 = [] /\ length (relay_candidates q 1) = 1005%nat.
+Proof. vm_compute. split; reflexivity. Qed.
